@@ -32,7 +32,26 @@ func runC19(c *Check) {
 	c.Doc("C19-R4", "GA: no signer on a failing path; key fields written last.")
 	var lk *ssa.Function
 	// the key loader: the method the constructor-from-file calls that opens (decrypts) the key
-	for _, cal := range staticCalleesOf(p, p.MustFunc(filePkg+".LoadFileSystemSigner")) {
+	// (looking through the package's own helpers: the constructor may delegate the opening)
+	var loaderCallees []*ssa.Function
+	{
+		seenF := map[*ssa.Function]bool{}
+		var walk func(fn *ssa.Function, d int)
+		walk = func(fn *ssa.Function, d int) {
+			for _, cal := range staticCalleesOf(p, fn) {
+				if seenF[cal] || fnPkg(cal) == nil || fnPkg(cal).Pkg.Path() != filePkg {
+					continue
+				}
+				seenF[cal] = true
+				loaderCallees = append(loaderCallees, cal)
+				if d < 2 && cal.Signature.Recv() == nil {
+					walk(cal, d+1)
+				}
+			}
+		}
+		walk(p.MustFunc(filePkg+".LoadFileSystemSigner"), 0)
+	}
+	for _, cal := range loaderCallees {
 		if cal.Signature.Recv() != nil && corrResult(cal) >= 0 {
 			opens := callsNamed(cal, func(n string) bool { return n == "(crypto/cipher.AEAD).Open" })
 			if opens || lk == nil {
@@ -90,11 +109,19 @@ func runC19(c *Check) {
 	// loader returns a signer only if loadKeys succeeded
 	ld := p.MustFunc(filePkg + ".LoadFileSystemSigner")
 	{
-		g := BuildECFG(p, ld, ExpandOpts{MaxDepth: 0})
+		// the package's own helpers are looked through (the opening may be delegated); the key
+		// loader itself stays a leaf whose result is tested
+		lopts := ownPkgOpts(filePkg, 2)
+		inner := lopts.Stop
+		lopts.Stop = func(f *ssa.Function) bool { return f == lk || (inner != nil && inner(f)) }
+		g := BuildECFG(p, ld, lopts)
 		c.NoteGraph(g)
 		ok := g.Select(ErrNilEdge(func(t *Term) bool { cv, ok := t.V.(*ssa.Call); return ok && cv.Common().StaticCallee() == lk }))
 		var withSigner []*Node
 		for _, x := range g.Exits {
+			if x.Ctx.Depth != 0 {
+				continue
+			}
 			ret := x.In.(*ssa.Return)
 			v := spilledResult(ret, 0)
 			if k, isC := v.(*ssa.Const); isC && k.Value == nil {
@@ -560,6 +587,7 @@ func runC19(c *Check) {
 	ruleNoUseAfterCalleeZeroed(c, p, "C19-R13")
 	ruleSealersWriteBeforeSuccess(c, p, "C19-R14")
 	c.MinInstances("C19-R3", 3)
+	ruleNoTypedNilSigner(c, p, "C19-R15")
 	c.MinInstances("C19-R4", 2)
 }
 
@@ -1017,4 +1045,65 @@ func ruleSealersWriteBeforeSuccess(c *Check, p *Prog, rule string) {
 	if n < 2 {
 		c.Unk(rule, "anchor-count", "", "", fmt.Sprintf("anchor lost: only %d functions seal a key in the key-file package", n))
 	}
+}
+
+// ruleNoTypedNilSigner (C19-R15): the constructors hand the signer back as an interface value. On
+// a failing path that value must be the nil interface: a nil *FileSystemSigner converted to the
+// interface (return helper() where the helper returns (*FileSystemSigner, error)) compares != nil
+// next to the error, and every method call on it panics — "a wrong passphrase or a corrupted file
+// never yields a usable signer or a panic".
+func ruleNoTypedNilSigner(c *Check, p *Prog, rule string) {
+	c.Doc(rule, "VP: in every function of the signer packages that returns (interface, error), a return whose error may be non-nil hands back the constant nil interface — never a concrete pointer converted to the interface (a nil pointer inside a non-nil interface value).")
+	n := 0
+	for _, fn := range p.Funcs {
+		pk := fnPkg(fn)
+		if pk == nil || !strings.HasPrefix(pk.Pkg.Path(), rootPath+"/pkg/signer") || fn.Blocks == nil || fn.Parent() != nil {
+			continue
+		}
+		res := fn.Signature.Results()
+		if res.Len() != 2 || res.At(1).Type().String() != "error" {
+			continue
+		}
+		if _, isIface := res.At(0).Type().Underlying().(*types.Interface); !isIface {
+			continue
+		}
+		n++
+		bad := ""
+		for _, b := range fn.Blocks {
+			ret, ok := b.Instrs[len(b.Instrs)-1].(*ssa.Return)
+			if !ok || len(ret.Results) != 2 {
+				continue
+			}
+			if classifyReturn(ret, 1) == rcB {
+				continue // success return
+			}
+			v := spilledResult(ret, 0)
+			if k, isK := v.(*ssa.Const); isK && k.Value == nil {
+				continue
+			}
+			// a forwarded interface result of another (interface, error) function is that function's business
+			if ex, isEx := v.(*ssa.Extract); isEx {
+				if _, isIface := ex.Type().Underlying().(*types.Interface); isIface {
+					continue
+				}
+			}
+			if mi, isMI := v.(*ssa.MakeInterface); isMI {
+				if _, isPtr := mi.X.Type().Underlying().(*types.Pointer); isPtr {
+					if _, fresh := mi.X.(*ssa.Alloc); !fresh {
+						bad = p.InstrPos(ret) + ": " + trunc(TermOf(mi.X, &Ctx{Fn: fn}).String(), 70)
+					}
+				}
+			}
+		}
+		inst := fnShort(fn) + " ⟂ nil interface on failure"
+		if bad == "" {
+			c.OK(rule, inst, fnName(fn), p.Pos(fn.Pos()), "every return that may carry an error hands back the nil interface", true)
+		} else {
+			c.Bad(rule, inst, fnName(fn), p.Pos(fn.Pos()), "a return that may carry an error converts a concrete pointer to the interface ("+bad+"): when that pointer is nil the caller gets a non-nil signer next to the error, and any method call on it dereferences nil", nil)
+		}
+	}
+	if n == 0 {
+		c.Unk(rule, "signer constructors", "", "", "anchor lost: no function returning (interface, error) in the signer packages")
+	}
+	c.MinInstances(rule, 2)
 }
